@@ -1,5 +1,7 @@
 import Mq.Effects
 import Proofs.Tie.ReadOnly
+import Proofs.Tie.ReadPacket
+import Proofs.Tie.Globals
 /-!
 # C13 — read-only operations on a shared packet are safe to run concurrently
 
